@@ -46,6 +46,22 @@ func (s *Subject) NewEntry(id string, t *progen.Type) *Entry {
 	for _, f := range t.Features() {
 		e.Tags["f:"+f] = "1"
 	}
+	// every imported package that a printed value of this type can name (C06 groups its second stage by it)
+	var xs []string
+	for _, d := range t.Decls() {
+		if d.Pkg != nil {
+			ip := d.Pkg.ImportPath() + "=" + d.Pkg.Name
+			dup := false
+			for _, x := range xs {
+				dup = dup || x == ip
+			}
+			if !dup {
+				xs = append(xs, ip)
+			}
+		}
+	}
+	sort.Strings(xs)
+	e.Tags["extpkgs"] = strings.Join(xs, ",")
 	s.Entries = append(s.Entries, e)
 	return e
 }
